@@ -5,6 +5,7 @@ An entry suppresses a P-clause failure only if (i) the clause matches,
 operator of spec/Findings.tla) accepts the failing case *and* what was
 observed.  'fixed' entries suppress nothing.
 """
+import fnmatch
 import json
 from pathlib import Path
 
@@ -20,7 +21,7 @@ class KF:
         for e in self.entries:
             if e["status"] != "known":
                 continue
-            if e["clause"] != clause and not (e["clause"].endswith("*") and clause.startswith(e["clause"][:-1])):
+            if not fnmatch.fnmatchcase(clause, e["clause"]):
                 continue
             pred = getattr(kfpreds, e["pred"])
             try:
